@@ -280,3 +280,19 @@ Proof.
 Qed.
 
 End Facts.
+
+(** moving to the time the estimate is already at calls the filter not at all and returns the estimate as it is *)
+Lemma propagate_equal_id (St : Type) (pm : QNum -> St -> St) max_dt cur st out :
+  0 < max_dt -> cur == out -> propagate QNum St pm max_dt cur st out = Some st.
+Proof.
+  intros Hp E. unfold propagate. rewrite steps_Q, (steps_none_when_equal max_dt cur out Hp E). reflexivity.
+Qed.
+
+(** polling: a tick without readings at the held time reports exactly the held estimate and holds it unchanged *)
+Lemma tick_poll_id (St R : Type) (pm : QNum -> St -> St) (upd : R -> St -> St) (ts : R -> QNum) max_dt h out :
+  0 < max_dt -> fst h == out -> tick_spec QNum St R pm upd ts max_dt h out [] = Some (h, snd h).
+Proof.
+  intros Hp E. unfold tick_spec. cbn [ofold obind].
+  pose proof (propagate_equal_id St pm max_dt (fst h) (snd h) out Hp E) as X.
+  match goal with |- option_map _ ?p = _ => replace p with (Some (snd h)) by (symmetry; exact X) end. reflexivity.
+Qed.
